@@ -96,7 +96,7 @@ def run_history(cfg, hist, probe=True):
     f = s.fp()
     if not probe:
         return s, f, None
-    obs = s.request(['drop'] * (cfg['R'] + 3))
+    obs = s.request(['drop'] * (cfg['R'] + 3), in_cancelled_task=bool(cfg.get('probe_in_cancelled_task')))
     return s, f, obs
 
 
@@ -151,7 +151,7 @@ def job(j):
         hist, cause = lst[0]
         mn = shrink_hist(cfg, hist, clause)
         _, _, o2 = run_history(cfg, mn)
-        cell = f"{cfg['transport']}/ka={int(cfg['ka'])}"
+        cell = f"{cfg['transport']}/ka={int(cfg['ka'])}" + ('/probe-in-cancelled-task' if cfg.get('probe_in_cancelled_task') else '')
         key = f"{clause}/{cell}/after:{'+'.join(sorted(set(x.split('-after-')[0] for x in mn))) or 'nothing'}"
         if not any(c == clause for c, _ in probe_monitor(cfg, o2)):
             key = f"{clause}/{cell}/order-dependent"
@@ -344,6 +344,9 @@ def run(tier, seed, rep):
     depth = 8 if tier == 'thorough' else 4
     jobs = [(dict(transport=tr, ka=ka, T=T, R=R), depth)
             for tr in ('udp', 'tcp') for ka in (False, True) for (T, R) in grid]
+    # the probe issued from a task that swallowed a cancellation before (Task.cancelling() > 0)
+    jobs += [(dict(transport=tr, ka=ka, T=1, R=2, probe_in_cancelled_task=True), min(depth, 2))
+             for tr in ('udp', 'tcp') for ka in (False, True)]
     total = Stats()
     per = []
     fixpoints = 0
